@@ -374,6 +374,9 @@ func TestC01(t *testing.T) {
 		if rejectedMsgs > 0 {
 			cl = append(cl, "message_rejected")
 		}
+		if mcfg.Unordered() && mintBlocks > 0 {
+			cl = append(cl, "minters_listed_out_of_order")
+		}
 		st.Case(mintBlocks > 0 && burnBlocks > 0 && acceptedMsgs > 0, map[string]interface{}{"history": hist}, cl...)
 		_ = strings.Repeat
 	})
